@@ -932,10 +932,11 @@ def campaign_hex(ctx):
                 data = bytes((fill + i) & 0xff if fill == 0x41 else fill for i in range(ln))
                 ctx.check_case([data, n], orc)
     ctx.exhaustive("hex: line sizes 1..64 x lengths {0,1,n-1,n,n+1,2n,2n+1,3n-1} x 5 fill patterns")
-    if ctx.thorough and ctx.shard == 0:
-        big = bytes(range(256)) * 257  # >= 65536: 8-digit offset form
-        for n in (1, 16, 64):
-            ctx.check_case([big[:65536 + n - 1], n], orc)
+    if ctx.shard == 0:
+        big = bytes(range(256)) * 258  # around 65536 bytes the offset column switches from 4 to 8 hex digits
+        for ln, n in ([(65535, 16), (65536, 16), (65537, 7), (65536 + 63, 64)] + ([(65536, 1), (70000, 33), (66000, 3)] if ctx.thorough else [])):
+            ctx.check_case([big[:ln], n], orc)
+        ctx.exhaustive("hex: lengths 65535/65536/65537 (4- vs 8-digit offset column)")
     strat = st.tuples(st.binary(max_size=300), st.integers(1, 64)).map(list)
     ctx.search(strat, orc, ctx.budget(1500, 40000))
 campaign_hex.shards = (1, 2)
